@@ -86,6 +86,66 @@ MAP = 'holopy.core.mapping.'
 MODEL = 'holopy.inference.model.Model'
 
 
+def sections_share_identity(check, prog):
+    """G13: one parameter per distinct prior, across the sections of a model.
+    The Mapper recognises a prior it has seen by identity (`existing is
+    parameter`), so the values of the four sections -- scatterer, theory, optics,
+    model -- must reach it as the objects the user wrote: a section read through
+    an accessor that hands out copies can tie priors only within itself."""
+    MQ = 'holopy.inference.model.Model'
+    q = MQ + '.__init__'
+    fd = prog.func(q)
+    loc = prog.loc(q, fd)
+    it = Interp(prog, max_depth=1, inline_new=False,
+                opaque=['holopy.scattering.interface.interpret_theory',
+                        MQ + '._create_dummy_scatterer'])
+    it.analyze(q)
+    cm = [c for c in it.calls if c['name'].endswith('Mapper.convert_to_map')]
+    check.need('sections mapped in Model.__init__', len(cm), 4,
+               'G13-sections-share-identity', 'Model.__init__ sections',
+               'scatterer, theory, optics and model values go through one Mapper', loc)
+    hints = {'scatterer': 'holopy.scattering.scatterer.scatterer.Scatterer',
+             'theory': 'holopy.scattering.theory.scatteringtheory.ScatteringTheory'}
+    for c in cm:
+        arg = c['args'][1] if len(c['args']) > 1 else None
+        if arg is None or arg[0] != 'attr':
+            continue
+        owner_t, name = arg[1], arg[2]
+        hint = None
+        if owner_t == sym('scatterer'):
+            hint = hints['scatterer']
+        elif owner_t == ('attr', sym('self'), 'theory'):
+            hint = hints['theory']
+        if hint is None:
+            continue
+        copies = []
+        for cq in sorted(set(prog.subclasses(hint)) | {hint}):
+            hit = prog.lookup(cq, name)
+            if not hit or hit[0] != 'property' or not hit[2].get('getter'):
+                continue
+            gq = hit[1] + '.' + name
+            g = hit[2]['getter']
+            import ast as _ast
+            for n in _ast.walk(g):
+                if isinstance(n, _ast.Return) and n.value is not None:
+                    for m in _ast.walk(n.value):
+                        if isinstance(m, _ast.Call) and _ast.unparse(m.func) in (
+                                'deepcopy', 'copy.deepcopy', 'copy', 'copy.copy'):
+                            copies.append(gq)
+        copies = sorted(set(copies))
+        check.require(not copies, 'G13-sections-share-identity',
+                      'Model.__init__ maps %s.%s' % (show(owner_t), name),
+                      'the section reaches the Mapper as the objects the user wrote',
+                      loc, fail_detail='%s hands out copies (%s): a prior used in the '
+                      'scatterer *and* in another section (medium = Uniform(1.30, 1.36); '
+                      'Sphere(n=medium * 1.2), medium_index=medium) becomes two '
+                      'independent parameters, medium and medium_0 -- the sphere\'s '
+                      'index no longer follows the medium index and the prior is '
+                      'counted twice in lnprior' % (
+                          '%s.%s' % (show(owner_t), name), ', '.join(
+                              x.replace('holopy.', '') for x in copies)))
+
+
 def no_class_level_state(check, prog):
     """G12: what a model knows about its parameters lives on the instance.  A
     mutable class attribute (`Model._model_parameters = {}`) that a method
@@ -172,6 +232,7 @@ def run(check, prog):
     from . import c19
     c19.scatterer_no_memo(check, prog)
     no_class_level_state(check, prog)
+    sections_share_identity(check, prog)
     # "applies the transformations": a derived prior must denote the arithmetic
     # that was written (shared rule with C14)
     from . import c14
